@@ -18,6 +18,9 @@ def setup(J):
         add("g6b", 2, 2, mode="delay", delay=1, id="C12-g6b-i2-m2-delay")
         add("gjoin", 2, 2, "cmd", extra=",", id="C12-gjoin-k2")
         add("gsplit", 1, 2, mode="delay", delay=1, id="C12-gsplit-i1-m2-delay")
+        # two Workflow objects in one program (package-level state: log handlers)
+        add("g8", 1, 2, two_wf=True, id="C12-two-workflows-g8")
+        add("g2", 1, 1, "cmd", two_wf=True, id="C12-two-workflows-g2-cmd")
         if not q:
             add("g14", 1, 2); add("g4", 2, 2); add("g6", 1, 2); add("g3", 2, 2); add("g14", 2, 2, mode="delay", delay=2, id="C12-g14-i2-m2-delay"); add("g12", 3, 2, mode="delay", delay=2, id="C12-g12-i3-delay")
         # components with their own sender goroutines
@@ -26,4 +29,4 @@ def setup(J):
                                                "args": {"comp": comp, "lens": lens, "buf": "1"}}, 1))
         return {"level": "model_checking", "race": True, "stages": [lambda ctx, prev: jobs],
                 "rule": "race-instrumented build (every map operation and every access to a struct field that is assigned after construction is a visible memory access): fan-out, fan-in, multi-core, tagging, join and combinator scenarios under every Mazurkiewicz trace (delay bound where not closed); vector-clock happens-before monitor built from synchronisation edges only (spawn, send->recv, k-th recv -> (k+cap)-th send, close -> recv-closed, unlock -> lock, Done -> Wait): two conflicting accesses not ordered by it in ANY explored execution = data race, reported with both functions",
-                "assumptions": J.BASE_ASSUMPTIONS + ["instrumented accesses: maps, mutable struct fields reached through a pointer-typed identifier; slice elements and right operands of && / || are not instrumented", "accesses in loop conditions are not instrumented"]}
+                "assumptions": J.BASE_ASSUMPTIONS + ["instrumented accesses: maps, mutable struct fields reached through a pointer-typed identifier, package-level variables assigned in a function body (checked against happens-before without being scheduling points); slice elements and right operands of && / || are not instrumented", "accesses in loop conditions are not instrumented"]}
